@@ -122,6 +122,89 @@ theorem move_transfers_ring {a : Abs} {h : Heap} (r : Reachable a h) (new old : 
 theorem pop_front_idiom {h : Heap} {hd x : Ptr} {l : List Ptr} (r : IsRing h hd (x :: l)) :
     h.next hd = x ∧ IsRing (unlink x h) hd l := ring_pop_front r
 
+
+/-! ### what the callers owe the ring is what the World invariant provides
+
+`Abs.legal` asks that an element is pushed only while it is on no list.  The World model's linkage invariant (`WF`,
+Props/C14.lean: every list duplicate-free, an expectation on at most one list — `entry_unique`, `reachable_nodup`) says
+that the lists are duplicate-free and pairwise disjoint **after** every operation.  That is enough: if the abstract lists
+are well formed after a push, the pushed element cannot have been on a list before it. -/
+
+/-- the list family is well formed: distinct list objects, each list duplicate-free and not containing its own list
+    object, different lists (list objects included) share no address.  (`Rep` without the heap.) -/
+structure AbsWf (a : Abs) : Prop where
+  heads_nodup : a.heads.Nodup
+  nodup : ∀ hd ∈ a.heads, (hd :: a.lists hd).Nodup
+  disj : ∀ hd1 ∈ a.heads, ∀ hd2 ∈ a.heads, hd1 ≠ hd2 → ∀ y ∈ hd1 :: a.lists hd1, y ∉ hd2 :: a.lists hd2
+
+theorem absWf_of_rep {h : Heap} {a : Abs} (R : Rep h a) : AbsWf a :=
+  ⟨R.heads_nodup, fun hd hm => (R.rings hd hm).2, R.disj⟩
+
+/-- **a push is legal whenever its result is well formed.** -/
+theorem push_legal_of_wf_post (a : Abs) (hd t : Ptr) (front : Bool) (hm : hd ∈ a.heads)
+    (post : AbsWf (a.step (if front then .pushFront hd t else .pushBack hd t))) :
+    a.legal (if front then .pushFront hd t else .pushBack hd t) := by
+  have key : ¬ a.used t := by
+    rintro ⟨hd2, h2, m⟩
+    have hl : ∀ x, x ≠ hd → (a.step (if front then .pushFront hd t else .pushBack hd t)).lists x = a.lists x := by
+      intro x hx; cases front <;> simp [Abs.step, Abs.set, hx]
+    have ht : t ∈ (a.step (if front then .pushFront hd t else .pushBack hd t)).lists hd := by
+      cases front <;> simp [Abs.step, Abs.set]
+    have hsub : ∀ y ∈ a.lists hd, y ∈ (a.step (if front then .pushFront hd t else .pushBack hd t)).lists hd := by
+      intro y hy; cases front <;> simp [Abs.step, Abs.set, hy]
+    have hheads : (a.step (if front then .pushFront hd t else .pushBack hd t)).heads = a.heads := by
+      cases front <;> rfl
+    have hnd := post.nodup hd (by rw [hheads]; exact hm)
+    by_cases e : hd2 = hd
+    · subst e
+      simp only [List.mem_cons] at m
+      rcases m with rfl | m
+      · simp only [List.nodup_cons] at hnd; exact hnd.1 ht
+      · -- `t` was already in the list: it is there twice afterwards
+        cases front
+        · simp only [Abs.step, Abs.set, if_true, Bool.false_eq_true, if_false] at hnd
+          simp only [List.nodup_cons, List.nodup_append] at hnd
+          exact hnd.2.2.2 t m t (by simp) rfl
+        · simp only [Abs.step, Abs.set, if_true] at hnd
+          simp only [List.nodup_cons] at hnd
+          exact hnd.2.1 m
+    · have := post.disj hd (by rw [hheads]; exact hm) hd2 (by rw [hheads]; exact h2) (Ne.symm e) t (by simp [ht])
+      rw [hl hd2 e] at this
+      exact this m
+  cases front
+  · exact ⟨hm, key⟩
+  · exact ⟨hm, key⟩
+
+/-- **a move is legal whenever its result is well formed** (and the target is not the source). -/
+theorem move_legal_of_wf_post (a : Abs) (pre : AbsWf a) (new old : Ptr) (hm : old ∈ a.heads) (hne : new ≠ old)
+    (post : AbsWf (a.step (.moveList new old))) : a.legal (.moveList new old) := by
+  refine ⟨hm, ?_⟩
+  rintro ⟨hd2, h2, m⟩
+  have hnewhead : new ∈ (a.step (.moveList new old)).heads := by simp [Abs.step]
+  have hl0 : (a.step (.moveList new old)).lists new = a.lists old := by simp [Abs.step]
+  by_cases e : hd2 = old
+  · subst e
+    simp only [List.mem_cons] at m
+    rcases m with m | m
+    · exact hne m
+    · have := post.nodup new hnewhead
+      rw [hl0] at this
+      simp only [List.nodup_cons] at this
+      exact this.1 m
+  · by_cases e2 : hd2 = new
+    · rw [e2] at h2
+      -- `new` was itself a list object: afterwards it heads the moved list and its own old list at once
+      have hdup : ¬ (a.step (.moveList new old)).heads.Nodup := by
+        simp only [Abs.step, List.nodup_cons, not_and]
+        intro hc; exact absurd ((List.mem_erase_of_ne hne).2 h2) hc
+      exact hdup post.heads_nodup
+    · have h2' : hd2 ∈ (a.step (.moveList new old)).heads := by
+        simp only [Abs.step, List.mem_cons]; right; exact (List.mem_erase_of_ne e).2 h2
+      have hl : (a.step (.moveList new old)).lists hd2 = a.lists hd2 := by simp [Abs.step, e, e2]
+      have := post.disj new hnewhead hd2 h2' (Ne.symm e2) new (by simp)
+      rw [hl] at this
+      exact this m
+
 /-! ### non-vacuity: a concrete script with two lists, pushes at both ends, removal from the middle, a move, a disposal -/
 
 instance decLegalRun : (a : Abs) → (ops : List Op) → Decidable (legalRun a ops)
